@@ -50,7 +50,9 @@ func (h Handler) HandleIQ(iq stanza.IQ, t xmlstream.TokenReadEncoder, start *xml
 			break
 		}
 	}
-	err = h.Push(ver, item)
+	if h.Push != nil {
+		err = h.Push(ver, item)
+	}
 	var stanzaErr stanza.Error
 	isStanzaErr := errors.As(err, &stanzaErr)
 	if isStanzaErr {
